@@ -2,6 +2,8 @@ CONSTANTS
   MaxSteps = 12
   MaxLen = 3
   PasteExec = TRUE
+  ValSync = TRUE
+  Assign = TRUE
   Orig = FALSE
 SPECIFICATION Spec
 INVARIANTS CursorInside Conform WordCmdsConform WordSane
